@@ -7,6 +7,7 @@
      [k |-> "exit", n]        exit n
      [k |-> "sete"]           set -e
      [k |-> "if", cst, st]    if <condition with status cst> ; <one command with status st> ; fi
+     [k |-> "for", pat]       for v in <words> ; <one command whose status in iteration j is pat[j]> ; done
    Function and file bodies are sequences of "c" and "exit" statements (constants FBody, SBody).
    Reference (the property): the status after a statement is that of the last command executed;
    a function call's and a source's status is that of the last command they executed; `exit n`
@@ -19,7 +20,7 @@
                     (scripting.rs::run_exp returns from one nesting level)                  *)
 EXTENDS Naturals, Sequences, FiniteSets, TLC
 
-CONSTANTS MaxStmts, Funcs, Files, FBody, SBody, Legacy
+CONSTANTS MaxStmts, Funcs, Files, FBody, SBody, Legacy, ForPats
 
 Stmts == {[k |-> "c", st |-> s] : s \in {"z", "nz"}}
          \cup {[k |-> "call", f |-> f] : f \in Funcs}
@@ -27,6 +28,7 @@ Stmts == {[k |-> "c", st |-> s] : s \in {"z", "nz"}}
          \cup {[k |-> "exit", n |-> n] : n \in {0, 4}}
          \cup {[k |-> "sete"]}
          \cup {[k |-> "if", cst |-> c, st |-> s] : c \in {"z", "nz"}, s \in {"z", "nz"}}
+         \cup {[k |-> "for", pat |-> p] : p \in ForPats}
 
 VARIABLES prog, done
 vars == <<prog, done>>
@@ -70,8 +72,19 @@ Step(s, st, i, ref) ==
                              IF r.stop THEN (IF "sete_local" \in Legacy THEN [r EXCEPT !.stop = FALSE]
                                              ELSE [r EXCEPT !.stop = FALSE, !.exited = TRUE])
                              ELSE r
+\* for loop: the body command runs once per word; iteration j has status pat[j]
+RECURSIVE Loop(_, _, _, _, _)
+Loop(s, pat, j, i, ref) ==
+  IF j > Len(pat) \/ s.exited \/ s.stop THEN s
+  ELSE LET r == Cmd(s, <<i, j>>, "script", pat[j], ref) IN
+       IF r.stop /\ ~ref /\ "sete_local" \in Legacy THEN Loop([r EXCEPT !.stop = FALSE], pat, j + 1, i, ref)   \* the pinned loop goes on
+       ELSE Loop(r, pat, j + 1, i, ref)
+StepAll(s, st, i, ref) ==
+  IF st.k = "for"
+  THEN LET r == Loop(s, st.pat, 1, i, ref) IN IF r.stop THEN [r EXCEPT !.stop = FALSE, !.exited = TRUE] ELSE r
+  ELSE Step(s, st, i, ref)
 RECURSIVE Run(_, _, _)
-Run(s, i, ref) == IF i > Len(prog) \/ s.exited THEN s ELSE Run(Step(s, prog[i], i, ref), i + 1, ref)
+Run(s, i, ref) == IF i > Len(prog) \/ s.exited THEN s ELSE Run(StepAll(s, prog[i], i, ref), i + 1, ref)
 Ref  == Run(S0, 1, TRUE)
 Impl == Run(S0, 1, FALSE)
 Agree == done => Ref.ev = Impl.ev /\ Ref.status = Impl.status /\ Ref.n = Impl.n
